@@ -10,6 +10,7 @@ import ufl
 
 from .. import formcheck, inputs, kernels, refeval, specs, strategies
 from ..common import Run, ShardResult, run_shards, scratch, spec_hash, verif_seed
+from ..common import thorough  # noqa: E402
 from ..hyp import Outcome, drive
 
 PROP = "C04"
@@ -207,7 +208,7 @@ def shard(shard, nshards, n, tier, seed):
 
 def run(tier: str) -> int:
     run_ = Run(PROP, tier, "exploration", RULE)
-    n = 10 if tier == "quick" else 190
+    n = 10 if tier == "quick" else thorough(70)
     for part in run_shards(shard, 16, n=n, tier=tier, seed=verif_seed()):
         run_.merge(part)
     run_.assumptions = [
